@@ -1,5 +1,5 @@
 (* The executable specs of C07 and C14 (Spec/SpecC07.v, Spec/SpecC14.v) hold of the world model for
-   every history of the covered sub-language inside the executable domain [dom07]
+   every history (all operations except OpCustom) inside the executable domain [dom07]
    (Proofs/C07SpecRegs.v): strictly if no two collectors of different kinds are ever registered
    under one name in one registry ([mixed_kinds_registered] false), and up to the family type
    otherwise (the delimitation [known_mixed_kinds] of the recorded finding holds).
@@ -16,8 +16,8 @@ Open Scope N_scope.
 (* ====================================================================================== *)
 (* 1. What a tracked registry gathers; the entries of [run].                               *)
 (* ====================================================================================== *)
-Definition G (w : world) (x : reginfo) : list MetricFamily :=
-  match reg_of w x with
+Definition G (gs : list handle) (w : world) (x : reginfo) : list MetricFamily :=
+  match reg_of gs w x with
   | Some rc => gather_families (r_prefix rc) (r_labels rc) (couts w (r_collectors rc))
   | None => []
   end.
@@ -26,15 +26,14 @@ Definition samef (strict : bool) : list MetricFamily -> list MetricFamily -> boo
   if strict then list_eqb mf_eqb else list_eqb mf_eqb_notype.
 Lemma samef_of_rel strict a b : samerel strict a b -> samef strict a b = true.
 Proof. destruct strict; cbn. - intros ->. apply list_mf_eqb_refl. - apply notype_of_retype. Qed.
-Definition RunInv (strict : bool) (w : world) (regs : list reginfo) (run : list (gkey * list MetricFamily)) : Prop :=
-  forall e x, In e run -> In x regs -> gkey_eqb (fst e) (key_of x) = true -> samerel strict (snd e) (G w x).
+Definition RunInv (strict : bool) (gs : list handle) (w : world) (regs : list reginfo) (run : list (gkey * list MetricFamily)) : Prop :=
+  forall e x, In e run -> In x regs -> gkey_eqb (fst e) (key_of x) = true -> samerel strict (snd e) (G gs w x).
 
-Lemma G_weq w w' x : weq w w' -> G w' x = G w x.
+Lemma G_weq gs w w' x : weq w w' -> G gs w' x = G gs w x.
 Proof.
-  intros E. pose proof E as (_ & _ & Er & Es & _). unfold G, reg_of. rewrite Es, Er.
-  destruct (nth_error (w_slots w) (ri_slot x)) as [[]|]; auto. destruct (nth_error (w_reg w) r); auto. rewrite (couts_weq w w' _ E). reflexivity.
+  intros E. pose proof E as (_ & _ & Er & _ & _). unfold G, reg_of. rewrite Er.
+  destruct (gslot gs (ri_slot x)); auto. destruct (nth_error (w_reg w) r); auto. rewrite (couts_weq w w' _ E). reflexivity.
 Qed.
-
 Lemma list_eqb_true_eq {A} (e : A -> A -> bool) : (forall x y, e x y = true -> x = y) -> forall a b, list_eqb e a b = true -> a = b.
 Proof.
   intros He. induction a as [|x a IH]; destruct b as [|y b]; cbn; try discriminate; auto.
@@ -64,15 +63,17 @@ Proof.
 Qed.
 
 (* two tracked registries with the same key gather the same (up to the type if not strict) *)
-Lemma G_same strict w x y rcx : WI w -> RI1 w x -> RI1 w y -> reg_of w x = Some rcx ->
+Lemma regwf_at w ri rc : WI w -> nth_error (w_reg w) ri = Some rc -> regwf (sigs_of w) rc.
+Proof. intros W E. pose proof (wi_reg _ W) as Wr. rewrite Forall_forall in Wr. apply Wr. eapply nth_error_In; eauto. Qed.
+Lemma reg_of_wf gs w x rc : WI w -> reg_of gs w x = Some rc -> regwf (sigs_of w) rc.
+Proof. intros W E. unfold reg_of in E. destruct (gslot gs (ri_slot x)); try discriminate. eapply regwf_at; eauto. Qed.
+Lemma G_same strict gs w x y rcx : WI w -> RI1 gs w x -> RI1 gs w y -> reg_of gs w x = Some rcx ->
   (strict = true -> types_agree (sigs_of w) (r_collectors rcx)) ->
-  gkey_eqb (key_of x) (key_of y) = true -> samerel strict (G w x) (G w y).
+  gkey_eqb (key_of x) (key_of y) = true -> samerel strict (G gs w x) (G gs w y).
 Proof.
   intros W (rc1 & E1 & P1 & L1 & Pm1 & _) (rc2 & E2 & P2 & L2 & Pm2 & _) Ex T K. rewrite E1 in Ex. inversion Ex; subst rcx. clear Ex.
   apply gkey_eqb_spec in K as (Kp & Kl & Km). unfold G. rewrite E1, E2.
-  assert (Er : regwf (sigs_of w) rc1).
-  { pose proof (wi_reg _ W) as Wr. rewrite Forall_forall in Wr. apply Wr. unfold reg_of in E1.
-    destruct (nth_error (w_slots w) (ri_slot x)) as [[]|]; try discriminate. eapply nth_error_In; eauto. }
+  pose proof (reg_of_wf _ _ _ _ W E1) as Er.
   destruct (reg_shape w W rc1 Er) as (Sh & _ & At).
   assert (Pc : Permutation (couts w (r_collectors rc1)) (couts w (r_collectors rc2))).
   { rewrite !couts_snd. apply Permutation_flat_map.
@@ -84,54 +85,50 @@ Proof.
   - apply gather_same_retype; auto.
 Qed.
 
-Lemma RI_in w regs x : RI w regs -> In x regs -> RI1 w x.
+Lemma RI_in gs w regs x : RI gs w regs -> In x regs -> RI1 gs w x.
 Proof. intros R H. unfold RI in R. rewrite Forall_forall in R. auto. Qed.
-Lemma reg_of_slot w x ri rc : reg_of w x = Some rc -> slot w (ri_slot x) = HRegistry ri -> nth_error (w_reg w) ri = Some rc.
-Proof.
-  unfold reg_of. destruct (nth_error (w_slots w) (ri_slot x)) as [h|] eqn:E; [|discriminate]. rewrite (slot_nth _ _ _ E).
-  destruct h; try discriminate. intros H1 H2. inversion H2; subst. exact H1.
-Qed.
-Lemma regwf_at w ri rc : WI w -> nth_error (w_reg w) ri = Some rc -> regwf (sigs_of w) rc.
-Proof. intros W E. pose proof (wi_reg _ W) as Wr. rewrite Forall_forall in Wr. apply Wr. eapply nth_error_In; eauto. Qed.
+Lemma reg_of_slot gs w x ri rc : reg_of gs w x = Some rc -> gslot gs (ri_slot x) = HRegistry ri -> nth_error (w_reg w) ri = Some rc.
+Proof. unfold reg_of. intros H E. rewrite E in H. exact H. Qed.
+Lemma GI_reg gs w r ri : GI gs w -> slot w r = HRegistry ri -> gslot gs r = HRegistry ri.
+Proof. intros G0 H. rewrite (GI_real gs w r G0); auto. rewrite H. reflexivity. Qed.
 
-Lemma gather_case strict w regs run r x ri rc fs w' :
-  WI w -> RI w regs -> RunInv strict w regs run -> ri_find r regs = Some x -> slot w r = HRegistry ri ->
+Lemma gather_case strict gs w regs run r x ri rc fs w' :
+  WI w -> GI gs w -> RI gs w regs -> RunInv strict gs w regs run -> ri_find r regs = Some x -> slot w r = HRegistry ri ->
   nth_error (w_reg w) ri = Some rc -> collect_all w (r_collectors rc) = Some (fs, w') ->
   (strict = true -> types_agree (sigs_of w) (r_collectors rc)) ->
   let fams := gather_families (r_prefix rc) (r_labels rc) fs in
   chk_c07 strict w x fams = true
   /\ forallb (fun e => negb (gkey_eqb (fst e) (key_of x)) || samef strict (snd e) fams) run = true
-  /\ RunInv strict w' regs ((key_of x, fams) :: run)
-  /\ (strict = true -> forallb family_homogeneous fams = true).
+  /\ RunInv strict gs w' regs ((key_of x, fams) :: run)
+  /\ (strict = true -> forallb family_homogeneous fams = true) /\ weq w w'.
 Proof.
-  intros W R Ru Hf Hs Hr Hc T. cbv zeta. apply ri_find_some in Hf as [Hx Ex].
-  pose proof (RI_in _ _ _ R Hx) as R1. pose proof R1 as (rc1 & E1 & P1 & L1 & Pm1 & Fm1).
-  rewrite <- Ex in Hs. pose proof (reg_of_slot _ _ _ _ E1 Hs) as Hr'. rewrite Hr in Hr'. inversion Hr'; subst rc1. clear Hr'.
+  intros W G0 R Ru Hf Hs Hr Hc T. cbv zeta. apply ri_find_some in Hf as [Hx Ex].
+  pose proof (RI_in _ _ _ _ R Hx) as R1. pose proof R1 as (rc1 & E1 & P1 & L1 & Pm1 & Fm1).
+  rewrite <- Ex in Hs. pose proof (reg_of_slot _ _ _ _ _ E1 (GI_reg _ _ _ _ G0 Hs)) as Hr'. rewrite Hr in Hr'. inversion Hr'; subst rc1. clear Hr'.
   destruct (collect_all_pure _ _ _ _ (WI_WQ _ W) Hc) as [Efs Hw]. subst fs.
-  assert (EG : gather_families (r_prefix rc) (r_labels rc) (couts w (r_collectors rc)) = G w x) by (unfold G; rewrite E1; reflexivity).
+  assert (EG : gather_families (r_prefix rc) (r_labels rc) (couts w (r_collectors rc)) = G gs w x) by (unfold G; rewrite E1; reflexivity).
   pose proof (regwf_at _ _ _ W Hr) as Er. destruct (reg_shape w W rc Er) as (Sh & Pay & At).
-  split; [|split; [|split]].
+  split; [|split; [|split; [|split]]]; auto.
   - unfold chk_c07, collected_now. rewrite Hs, Hr, Hc. rewrite P1, L1. apply gather_ok_model; auto.
   - apply forallb_forall. intros e He. destruct (gkey_eqb (fst e) (key_of x)) eqn:K; cbn [negb orb]; auto.
     apply samef_of_rel. rewrite EG. apply (Ru e x); auto.
   - intros e y [<-|He] Hy K; cbn [fst snd] in *.
-    + rewrite (G_weq _ _ _ Hw), EG. eapply G_same; eauto. apply (RI_in _ _ _ R Hy).
-    + rewrite (G_weq _ _ _ Hw). apply Ru; auto.
+    + rewrite (G_weq _ _ _ _ Hw), EG. eapply G_same; eauto. apply (RI_in _ _ _ _ R Hy).
+    + rewrite (G_weq _ _ _ _ Hw). apply Ru; auto.
   - intros Es. apply gather_homogeneous_b; auto.
 Qed.
 
 (* ====================================================================================== *)
 (* 2. The bookkeeping of [mixed_walk] against the world.                                   *)
 (* ====================================================================================== *)
-Definition sent (w : world) (s : nat) : option (ckind * str) := went (sigs_of w) (slot w s).
+Definition sent (gs : list handle) (w : world) (s : nat) : option (ckind * str) := went (sigs_of w) (gslot gs s).
 Definition nomix (es : list (ckind * str)) : Prop := forall e e', In e es -> In e' es -> snd e = snd e' -> fst e = fst e'.
-Definition MI1 (w : world) (rk : list (nat * list (ckind * str))) (x : reginfo) : Prop :=
-  exists es, In (ri_slot x, es) rk /\ Permutation (map Some es) (map (sent w) (ri_members x)) /\ nomix es.
-Record MI (w : world) (sk : list (option (ckind * str))) (rk : list (nat * list (ckind * str))) (regs : list reginfo) : Prop := mkMI {
-  mi_len : length sk = length (w_slots w);
-  mi_ent : forall s, is_coll (slot w s) = true -> nth s sk None = sent w s;
-  mi_regs : Forall (MI1 w rk) regs }.
-
+Definition MI1 (gs : list handle) (w : world) (rk : list (nat * list (ckind * str))) (x : reginfo) : Prop :=
+  exists es, In (ri_slot x, es) rk /\ Permutation (map Some es) (map (sent gs w) (ri_members x)) /\ nomix es.
+Record MI (gs : list handle) (w : world) (sk : list (option (ckind * str))) (rk : list (nat * list (ckind * str))) (regs : list reginfo) : Prop := mkMI {
+  mi_len : length sk = length gs;
+  mi_ent : forall s, is_coll (gslot gs s) = true -> nth s sk None = sent gs w s;
+  mi_regs : Forall (MI1 gs w rk) regs }.
 Lemma ctype_lib S c : ctypeS S c = COUNTER \/ ctypeS S c = GAUGE \/ ctypeS S c = HISTOGRAM.
 Proof.
   destruct c; cbn; auto.
@@ -142,15 +139,15 @@ Lemma kind_of_inj S a b : kind_of (ctypeS S a) = kind_of (ctypeS S b) -> ctypeS 
 Proof.
   destruct (ctype_lib S a) as [-> | [-> | ->]], (ctype_lib S b) as [-> | [-> | ->]]; cbn; congruence.
 Qed.
-Lemma MI_types w rk x rc : RI1 w x -> MI1 w rk x -> reg_of w x = Some rc -> types_agree (sigs_of w) (r_collectors rc).
+Lemma MI_types gs w rk x rc : RI1 gs w x -> MI1 gs w rk x -> reg_of gs w x = Some rc -> types_agree (sigs_of w) (r_collectors rc).
 Proof.
   intros (rc1 & E1 & _ & _ & Pm & Fm) (es & _ & Pe & Nm) Er. rewrite E1 in Er. inversion Er; subst rc1. clear Er.
   assert (Hent : forall a, In a (r_collectors rc) ->
             In (kind_of (ctypeS (sigs_of w) (snd a)), d_fq_name (cdescS (sigs_of w) (snd a))) es).
-  { intros a Ha. assert (Hin : In (snd a) (map (cof w) (ri_members x))).
+  { intros a Ha. assert (Hin : In (snd a) (map (cof gs) (ri_members x))).
     { eapply Permutation_in; [exact Pm|]. apply in_map. exact Ha. }
-    apply in_map_iff in Hin as (s & Es & Hs). rewrite Forall_forall in Fm. destruct (Fm s Hs) as [_ Hcl].
-    assert (Hse : In (sent w s) (map (sent w) (ri_members x))) by (apply in_map; exact Hs).
+    apply in_map_iff in Hin as (s & Es & Hs). rewrite Forall_forall in Fm. pose proof (Fm s Hs) as Hcl.
+    assert (Hse : In (sent gs w s) (map (sent gs w) (ri_members x))) by (apply in_map; exact Hs).
     apply (Permutation_in _ (Permutation_sym Pe)) in Hse. apply in_map_iff in Hse as (e & Ee & He).
     unfold sent, went in Ee. rewrite Hcl in Ee. unfold cof in Es. rewrite Es in Ee. inversion Ee; subst e. exact He. }
   intros a b Ha Hb En. apply kind_of_inj. apply (Nm _ _ (Hent a Ha) (Hent b Hb)). exact En.
@@ -199,73 +196,97 @@ Proof. destruct o; try discriminate; reflexivity. Qed.
 Lemma slot_entry_push o ob sk : pushes o = true -> exists e, slot_entry o ob sk = Some e.
 Proof. destruct o; try discriminate; cbn; eauto. Qed.
 Lemma slot_entry_spec o ob sk w w' h : is_ok ob = true -> entry_spec w w' o h ->
-  (forall s, is_coll (slot w s) = true -> nth s sk None = sent w s) -> slot_entry o ob sk = Some (went (sigs_of w') h).
+  (forall s, is_coll (slot w s) = true -> nth s sk None = went (sigs_of w) (slot w s)) -> slot_entry o ob sk = Some (went (sigs_of w') h).
 Proof.
   intros Ho He Hm. destruct o; cbn [entry_spec] in He; try contradiction; cbn [slot_entry]; rewrite Ho; try (rewrite He; reflexivity);
-    destruct He as [Hc He]; rewrite (Hm _ Hc); unfold sent; rewrite He; reflexivity.
+    destruct He as [Hc He]; rewrite (Hm _ Hc); rewrite He; reflexivity.
 Qed.
 
-Lemma slot_nth_error w s h : slot w s = h -> h <> HDead -> nth_error (w_slots w) s = Some h.
+Lemma is_coll_stable h : is_coll h = true -> stable h = true.
+Proof. intros H. unfold stable. rewrite H. reflexivity. Qed.
+Lemma sent_frame gs gs' w w' s : GI gs w -> frame w w' -> sagree gs gs' -> is_coll (gslot gs s) = true ->
+  gslot gs' s = gslot gs s /\ sent gs' w' s = sent gs w s.
 Proof.
-  intros E Hn. unfold slot in E. destruct (nth_error (w_slots w) s) as [h'|] eqn:En.
-  - rewrite (nth_error_nth _ _ _ En) in E. congruence.
-  - apply nth_error_None in En. rewrite nth_overflow in E by lia. congruence.
+  intros G0 (Hs & _) (_ & Sf & _) Hc. pose proof (Sf s (is_coll_stable _ Hc)) as E. split; auto.
+  unfold sent. rewrite E. apply went_mono; auto. intros _. apply clib_of_slotwf; auto. apply GI_wf; auto.
 Qed.
-Lemma sent_frame w w' s : WI w -> frame w w' -> is_coll (slot w s) = true -> slot w' s = slot w s /\ sent w' s = sent w s.
+Lemma MI1_frame gs gs' w w' rk x : GI gs w -> frame w w' -> sagree gs gs' -> RI1 gs w x -> MI1 gs w rk x -> MI1 gs' w' rk x.
 Proof.
-  intros W (Hs & Hp & _) Hc. pose proof (slot_coll_lt _ _ Hc) as Hl. pose proof (slot_prefix w w' s Hp Hl) as E. split; auto.
-  unfold sent. rewrite E. apply went_mono; auto. intros _. apply clib_of_slotwf; auto. apply slot_wf; auto.
-Qed.
-Lemma MI1_frame w w' rk x : WI w -> frame w w' -> RI1 w x -> MI1 w rk x -> MI1 w' rk x.
-Proof.
-  intros W F (rc & _ & _ & _ & _ & Fm) (es & A & B & C). exists es. split; auto. split; auto.
-  replace (map (sent w') (ri_members x)) with (map (sent w) (ri_members x)); auto. apply map_ext_in. intros s Hs.
-  rewrite Forall_forall in Fm. destruct (Fm s Hs) as [_ Hc]. symmetry. apply (sent_frame w w' s W F Hc).
+  intros G0 F Sa (rc & _ & _ & _ & _ & Fm) (es & A & B & C). exists es. split; auto. split; auto.
+  replace (map (sent gs' w') (ri_members x)) with (map (sent gs w) (ri_members x)); auto. apply map_ext_in. intros s Hs.
+  rewrite Forall_forall in Fm. symmetry. apply (sent_frame gs gs' w w' s G0 F Sa (Fm s Hs)).
 Qed.
 
-Record INV (strict : bool) (w : world) (regs : list reginfo) (sk : list (option (ckind * str))) (rk : list (nat * list (ckind * str))) : Prop := mkINV {
-  i_wi : WI w; i_ri : RI w regs; i_tr : Tracked w regs; i_nd : NoDup (map ri_slot regs);
-  i_lt : Forall (fun x => (ri_slot x < length (w_slots w))%nat) regs;
-  i_mi : strict = true -> MI w sk rk regs }.
+Record INVg (strict : bool) (gs : list handle) (w : world) (regs : list reginfo) (sk : list (option (ckind * str))) (rk : list (nat * list (ckind * str))) : Prop := mkINV {
+  i_wi : WI w; i_gi : GI gs w; i_ri : RI gs w regs; i_tr : Tracked gs regs; i_nd : NoDup (map ri_slot regs);
+  i_mi : strict = true -> MI gs w sk rk regs }.
+Definition INV strict w regs sk rk : Prop := exists gs, INVg strict gs w regs sk rk.
 
-Lemma MI_other w w' sk rk regs o ob : WI w -> RI w regs -> MI w sk rk regs -> step_res w o w' ob ->
-  MI w' (sk_next sk o ob) rk regs.
+Lemma MI_regs_frame gs gs' w w' rk regs : GI gs w -> frame w w' -> sagree gs gs' -> RI gs w regs ->
+  Forall (MI1 gs w rk) regs -> Forall (MI1 gs' w' rk) regs.
 Proof.
-  intros W R [Ml Me Mr] [[W' F] Er Sl]. unfold sk_next.
-  assert (Hregs : Forall (MI1 w' rk) regs).
-  { apply Forall_forall. intros x Hx. rewrite Forall_forall in Mr. apply (MI1_frame w w' rk x W F (RI_in _ _ _ R Hx) (Mr x Hx)). }
-  destruct (pushes o) eqn:P.
-  - destruct Sl as (h & Es & Nr & Hh). destruct (slot_entry_push o ob sk P) as [e Ee]. rewrite Ee. split; auto.
-    + rewrite Es, !app_length, Ml. reflexivity.
-    + intros s Hc. destruct (Nat.lt_trichotomy s (length (w_slots w))) as [Hl|[Hl|Hl]].
-      * assert (Esl : slot w' s = slot w s) by (apply slot_prefix; auto; apply F).
-        rewrite Esl in Hc. rewrite app_nth1 by lia. rewrite (Me s Hc). symmetry. apply (sent_frame w w' s W F Hc).
-      * subst s. assert (Esl : slot w' (length (w_slots w)) = h).
-        { unfold slot. rewrite Es, app_nth2 by lia. rewrite Nat.sub_diag. reflexivity. }
-        rewrite Esl in Hc. destruct (Hh Hc) as [Ho Hs]. rewrite (slot_entry_spec o ob sk w w' h Ho Hs Me) in Ee. inversion Ee; subst e.
-        unfold sent. rewrite Esl. rewrite <- Ml, app_nth2 by lia. rewrite Nat.sub_diag. reflexivity.
-      * exfalso. unfold slot in Hc. rewrite Es in Hc. rewrite nth_overflow in Hc; [discriminate|]. rewrite app_length. cbn. lia.
-  - rewrite (slot_entry_nopush o ob sk P). split; auto.
-    + rewrite Sl. exact Ml.
-    + intros s Hc. assert (Esl : slot w' s = slot w s) by (unfold slot; rewrite Sl; reflexivity). rewrite Esl in Hc.
-      rewrite (Me s Hc). symmetry. apply (sent_frame w w' s W F Hc).
+  intros G0 F Sa R Mr. apply Forall_forall. intros x Hx. rewrite Forall_forall in Mr.
+  apply (MI1_frame gs gs' w w' rk x G0 F Sa (RI_in _ _ _ _ R Hx) (Mr x Hx)).
+Qed.
+Lemma MI_push gs w w' sk rk regs o ob h : GI gs w -> RI gs w regs -> MI gs w sk rk regs -> frame w w' -> pushes o = true ->
+  (is_coll h = true -> is_ok ob = true /\ entry_spec w w' o h) -> MI (gs ++ [h]) w' (sk_next sk o ob) rk regs.
+Proof.
+  intros G0 R [Ml Me Mr] F P Hh. unfold sk_next. destruct (slot_entry_push o ob sk P) as [e Ee]. rewrite Ee. split.
+  - rewrite !app_length, Ml. reflexivity.
+  - intros s Hc. destruct (Nat.lt_trichotomy s (length gs)) as [Hl|[Hl|Hl]].
+    + rewrite gslot_snoc_old in Hc by auto. rewrite app_nth1 by lia. rewrite (Me s Hc). symmetry.
+      apply (sent_frame gs (gs ++ [h]) w w' s G0 F (sagree_push gs h) Hc).
+    + subst s. rewrite gslot_snoc_new in Hc. destruct (Hh Hc) as [Ho Hs].
+      assert (Hm : forall s, is_coll (slot w s) = true -> nth s sk None = went (sigs_of w) (slot w s)).
+      { intros s0 Hc0. pose proof (GI_real gs w s0 G0 (is_coll_stable _ Hc0)) as Eg. rewrite <- Eg in Hc0 |- *. apply Me. exact Hc0. }
+      rewrite (slot_entry_spec o ob sk w w' h Ho Hs Hm) in Ee. inversion Ee; subst e.
+      unfold sent. rewrite gslot_snoc_new. rewrite <- Ml, app_nth2 by lia. rewrite Nat.sub_diag. reflexivity.
+    + exfalso. unfold gslot in Hc. rewrite nth_overflow in Hc; [discriminate|]. rewrite app_length. cbn. lia.
+  - apply (MI_regs_frame gs (gs ++ [h]) w w' rk regs G0 F (sagree_push gs h) R Mr).
+Qed.
+Lemma MI_nopush gs gs' w w' sk rk regs o ob : GI gs w -> RI gs w regs -> MI gs w sk rk regs -> frame w w' -> pushes o = false ->
+  sagree gs gs' -> length gs' = length gs -> MI gs' w' (sk_next sk o ob) rk regs.
+Proof.
+  intros G0 R [Ml Me Mr] F P Sa El. unfold sk_next. rewrite (slot_entry_nopush o ob sk P). split.
+  - congruence.
+  - intros s Hc. pose proof Sa as (_ & _ & Sb).
+    assert (Hl : (s < length gs)%nat) by (rewrite <- El; apply gslot_lt; intros E; rewrite E in Hc; discriminate).
+    pose proof (Sb s Hl (is_coll_stable _ Hc)) as E. rewrite E in Hc. rewrite (Me s Hc). symmetry.
+    apply (sent_frame gs gs' w w' s G0 F Sa Hc).
+  - apply (MI_regs_frame gs gs' w w' rk regs G0 F Sa R Mr).
 Qed.
 
 Lemma INV_of_res strict w regs sk rk o w' ob : INV strict w regs sk rk -> step_res w o w' ob ->
   INV strict w' regs (sk_next sk o ob) rk.
 Proof.
-  intros [W R T ND Lt M] SR. pose proof SR as [[W' F] Er Sl].
-  assert (Pf : prefix (w_slots w) (w_slots w')) by apply F.
-  split; auto.
-  - apply Forall_forall. intros x Hx. eapply RI1_frame; eauto; [rewrite Er; auto|]. apply (RI_in _ _ _ R Hx).
-  - destruct (pushes o); [destruct Sl as (h & Es & Nr & _); eapply Tracked_push; eauto|eapply Tracked_same; eauto].
-  - eapply Forall_impl; [|exact Lt]. intros x Hx. pose proof (prefix_length _ _ Pf) as Hp. cbn beta in Hx. lia.
-  - intros Es. apply (MI_other w _ sk rk regs o _ W R (M Es) SR).
+  intros [gs [W G0 R T ND M]] [[W' F] Er Sl].
+  assert (Hregs : forall ri rc, nth_error (w_reg w) ri = Some rc -> nth_error (w_reg w') ri = Some rc) by (rewrite Er; auto).
+  destruct (pushes o) eqn:P.
+  - destruct Sl as (h & Es & Nr & Hh). exists (gs ++ [h]).
+    assert (Hw : slotwf w' h).
+    { pose proof (wi_slots _ W') as Ws. rewrite Forall_forall in Ws. apply Ws. rewrite Es. apply in_or_app. right. left. reflexivity. }
+    split; auto.
+    + eapply ghost_push; eauto.
+    + apply Forall_forall. intros x Hx. eapply RI1_frame; [apply sagree_push|exact Hregs|apply (RI_in _ _ _ _ R Hx)].
+    + eapply Tracked_frame; [apply sagree_push| |exact T]. intros s Hs.
+      destruct (Nat.eq_dec s (length gs)) as [->|Ne].
+      * rewrite gslot_snoc_new. destruct h; try reflexivity. exfalso. eapply Nr; eauto.
+      * unfold gslot. rewrite nth_overflow; [reflexivity|]. rewrite app_length. cbn. lia.
+    + intros Es'. apply (MI_push gs w w' sk rk regs o ob h G0 R (M Es') F P Hh).
+  - assert (Hg : exists gs', GI gs' w' /\ sagree gs gs' /\ length gs' = length gs).
+    { destruct Sl as [Sl|(s & h0 & h' & En & Sl & Hn & Hst & Hd)].
+      - exists gs. split; [eapply ghost_same; eauto|]. split; [apply sagree_refl|reflexivity].
+      - eapply ghost_put; eauto. }
+    destruct Hg as (gs' & G' & Sa & El). exists gs'. split; auto.
+    + apply Forall_forall. intros x Hx. eapply RI1_frame; [exact Sa|exact Hregs|apply (RI_in _ _ _ _ R Hx)].
+    + eapply Tracked_frame; [exact Sa| |exact T]. intros s Hs. unfold gslot. rewrite nth_overflow; [reflexivity|lia].
+    + intros Es'. apply (MI_nopush gs gs' w w' sk rk regs o ob G0 R (M Es') F P Sa El).
 Qed.
 Lemma INV_other strict w regs sk rk o : INV strict w regs sk rk -> op_lang o = true -> clone_ok w o = true -> is_regop o = false ->
   INV strict (fst (step w o)) (track w regs o (snd (step w o))) (sk_next sk o (snd (step w o))) (rk_next sk rk o (snd (step w o))).
 Proof.
-  intros I Hl Hc Hr. rewrite track_other, rk_next_other by auto. apply (INV_of_res strict w); auto. apply step_other; auto. apply I.
+  intros I Hl Hc Hr. rewrite track_other, rk_next_other by auto. apply (INV_of_res strict w); auto. apply step_other; auto.
+  destruct I as [gs I]. apply I.
 Qed.
 
 (* ---------- OpRegistry ---------- *)
@@ -274,39 +295,49 @@ Proof. unfold reg_new_custom. destruct (_ || _); [discriminate|]. intros H. inve
 Lemma opt_amap (l : option (list (str * str))) : match l with Some l0 => Some (amap_of l0) | None => None end = option_map (@amap_of str) l.
 Proof. destruct l; reflexivity. Qed.
 
+Lemma RI1_reg_lt gs w x : RI1 gs w x -> (ri_slot x < length gs)%nat.
+Proof.
+  intros (rc & Er & _). unfold reg_of in Er. apply gslot_lt. intros E. rewrite E in Er. discriminate.
+Qed.
 Lemma INV_registry strict w regs sk rk p l r : INV strict w regs sk rk ->
   reg_new_custom p (option_map (@amap_of str) l) = Ok r ->
   INV strict (push_slot (set_reg w (w_reg w ++ [r])) (HRegistry (length (w_reg w))))
       (mkRI (length (w_slots w)) p l [] :: regs) (sk ++ [None]) ((length sk, []) :: rk).
 Proof.
-  intros [W R T ND Lt M] Hr. apply reg_new_custom_ok in Hr.
+  intros [gs [W G0 R T ND M]] Hr. apply reg_new_custom_ok in Hr.
   assert (F : WF w (push_slot (set_reg w (w_reg w ++ [r])) (HRegistry (length (w_reg w))))) by (apply P_newreg; auto; rewrite Hr; reflexivity).
   set (w' := push_slot (set_reg w (w_reg w ++ [r])) (HRegistry (length (w_reg w)))) in *.
-  assert (Esl : w_slots w' = w_slots w ++ [HRegistry (length (w_reg w))]) by reflexivity.
-  split.
+  pose proof (GI_len _ _ G0) as Hlen. set (hn := HRegistry (length (w_reg w))) in *.
+  assert (Sa : sagree gs (gs ++ [hn])) by apply sagree_push.
+  assert (Hregs : forall ri rc, nth_error (w_reg w) ri = Some rc -> nth_error (w_reg w') ri = Some rc).
+  { intros ri rc H. cbn. rewrite nth_error_app1; auto. apply nth_error_Some. congruence. }
+  exists (gs ++ [hn]). split.
   - apply F.
-  - apply RI_newreg; auto.
-  - intros s ri H. rewrite Esl in H. destruct (Nat.ltb s (length (w_slots w))) eqn:El.
-    + apply Nat.ltb_lt in El. rewrite nth_error_app1 in H by auto. destruct (T s ri H) as (x & Hx & Ex). exists x. split; [right|]; auto.
-    + apply Nat.ltb_ge in El. assert (s = length (w_slots w)).
-      { assert (s < length (w_slots w ++ [HRegistry (length (w_reg w))]))%nat by (apply nth_error_Some; congruence).
-        rewrite app_length in H0. cbn in H0. lia. }
-      subst s. eexists. split; [left; reflexivity|reflexivity].
+  - pose proof G0 as (A & B & C). split; [|split].
+    + cbn [w' push_slot set_slots w_slots]. apply Forall2_app; auto. constructor; [left; reflexivity|constructor].
+    + apply Forall_app. split; [eapply GI_frame_wf; [apply F|exact B]|]. constructor; auto. cbn. rewrite app_length. cbn. lia.
+    + rewrite regslots_app, C. cbn. rewrite app_length. cbn. rewrite seq_app. reflexivity.
+  - constructor.
+    + exists r. unfold reg_of. cbn [ri_slot]. rewrite <- Hlen, gslot_snoc_new. cbn [hn w' push_slot set_slots set_reg w_reg].
+      rewrite nth_error_app2 by lia. rewrite Nat.sub_diag. cbn. rewrite Hr. cbn. repeat split; auto.
+    + apply Forall_forall. intros x Hx. eapply RI1_frame; [exact Sa|exact Hregs|apply (RI_in _ _ _ _ R Hx)].
+  - intros s ri H. destruct (Nat.lt_trichotomy s (length gs)) as [Hl|[Hl|Hl]].
+    + rewrite gslot_snoc_old in H by auto. destruct (T s ri H) as (x & Hx & Ex). exists x. split; [right|]; auto.
+    + subst s. eexists. split; [left; reflexivity|]. cbn. congruence.
+    + exfalso. unfold gslot in H. rewrite nth_overflow in H; [discriminate|]. rewrite app_length. cbn. lia.
   - cbn [map ri_slot]. constructor; auto. intros Hin. apply in_map_iff in Hin as (x & Ex & Hx).
-    rewrite Forall_forall in Lt. specialize (Lt x Hx). cbn beta in Lt. lia.
-  - constructor; [cbn [ri_slot]; rewrite Esl, app_length; cbn; lia|].
-    eapply Forall_impl; [|exact Lt]. intros x Hx. cbn beta in *. rewrite Esl, app_length. lia.
+    pose proof (RI1_reg_lt _ _ _ (RI_in _ _ _ _ R Hx)). lia.
   - intros Es. destruct (M Es) as [Ml Me Mr]. split.
-    + rewrite Esl, !app_length, Ml. reflexivity.
-    + intros s Hc. destruct (Nat.lt_trichotomy s (length (w_slots w))) as [Hl|[Hl|Hl]].
-      * assert (E1 : slot w' s = slot w s) by (apply slot_prefix; auto; apply F).
-        rewrite E1 in Hc. rewrite app_nth1 by lia. rewrite (Me s Hc). symmetry. apply (sent_frame w w' s W (proj2 F) Hc).
-      * subst s. exfalso. unfold slot in Hc. rewrite Esl, app_nth2 in Hc by lia. rewrite Nat.sub_diag in Hc. discriminate.
-      * exfalso. unfold slot in Hc. rewrite Esl in Hc. rewrite nth_overflow in Hc; [discriminate|]. rewrite app_length. cbn. lia.
+    + rewrite !app_length, Ml. reflexivity.
+    + intros s Hc. destruct (Nat.lt_trichotomy s (length gs)) as [Hl|[Hl|Hl]].
+      * rewrite gslot_snoc_old in Hc by auto. rewrite app_nth1 by lia. rewrite (Me s Hc). symmetry.
+        apply (sent_frame gs (gs ++ [hn]) w w' s G0 (proj2 F) Sa Hc).
+      * subst s. rewrite gslot_snoc_new in Hc. discriminate.
+      * exfalso. unfold gslot in Hc. rewrite nth_overflow in Hc; [discriminate|]. rewrite app_length. cbn. lia.
     + constructor.
-      * exists []. cbn [ri_slot ri_members map]. split; [left; rewrite Ml; reflexivity|]. split; [constructor|]. intros e e' [].
+      * exists []. cbn [ri_slot ri_members map]. split; [left; rewrite Ml, Hlen; reflexivity|]. split; [constructor|]. intros e e' [].
       * apply Forall_forall. intros x Hx. rewrite Forall_forall in Mr.
-        destruct (MI1_frame w w' rk x W (proj2 F) (RI_in _ _ _ R Hx) (Mr x Hx)) as (es & A & B & C). exists es. split; [right|]; auto.
+        destruct (MI1_frame gs (gs ++ [hn]) w w' rk x G0 (proj2 F) Sa (RI_in _ _ _ _ R Hx) (Mr x Hx)) as (es & A1 & B1 & C1). exists es. split; [right|]; auto.
 Qed.
 
 (* ---------- OpRegister / OpUnregister ---------- *)
@@ -332,68 +363,68 @@ Lemma remove_entry_sub e es x : In x (remove_entry e es) -> In x es.
 Proof. induction es as [|y es IH]; cbn; auto. destruct (_ && _); cbn; intros H; auto. destruct H; auto. Qed.
 
 Section RegOps.
-  Variables (strict : bool) (w : world) (regs : list reginfo) (sk : list (option (ckind * str))) (rk : list (nat * list (ckind * str))).
+  Variables (strict : bool) (gs : list handle) (w : world) (regs : list reginfo) (sk : list (option (ckind * str))) (rk : list (nat * list (ckind * str))).
   Variables (r s ri : nat) (c : collector) (ds : list Desc) (rc rc' : regcore collector).
-  Hypothesis I : INV strict w regs sk rk.
+  Hypothesis I : INVg strict gs w regs sk rk.
   Hypothesis Hr : slot w r = HRegistry ri.
   Hypothesis Hc : collector_of w (slot w s) = Some (c, ds).
   Hypothesis Hn : nth_error (w_reg w) ri = Some rc.
   Let S := sigs_of w.
   Let w' := set_reg w (list_set (w_reg w) ri rc').
 
-  Lemma ro_coll : is_coll (slot w s) = true /\ c = cof w s /\ ds = [cdescS S c] /\ clibS S c /\ (s < length (w_slots w))%nat.
+  Lemma ro_coll : is_coll (gslot gs s) = true /\ c = cof gs s /\ ds = [cdescS S c] /\ clibS S c.
   Proof.
-    destruct (collector_of_spec w (slot w s) c ds (slot_wf w s (i_wi _ _ _ _ _ I)) Hc) as (A & B & C & D).
-    repeat split; auto. apply slot_coll_lt; auto.
+    destruct (collector_of_spec w (slot w s) c ds (slot_wf w s (i_wi _ _ _ _ _ _ I)) Hc) as (A & B & C & D).
+    pose proof (GI_real gs w s (i_gi _ _ _ _ _ _ I) (is_coll_stable _ A)) as E. unfold cof. rewrite E. auto.
   Qed.
-  Lemma ro_slot_r : nth_error (w_slots w) r = Some (HRegistry ri).
-  Proof. apply slot_nth_error; auto. discriminate. Qed.
-  Lemma ro_reg_of x : In x regs -> ri_slot x = r -> reg_of w x = Some rc.
-  Proof. intros Hx Ex. unfold reg_of. rewrite Ex, ro_slot_r. exact Hn. Qed.
-  Lemma ro_other x : In x regs -> ri_slot x <> r -> RI1 w x -> RI1 w' x.
+  Lemma ro_slot_r : gslot gs r = HRegistry ri.
+  Proof. apply (GI_reg gs w r ri (i_gi _ _ _ _ _ _ I) Hr). Qed.
+  Lemma ro_reg_of x : ri_slot x = r -> reg_of gs w x = Some rc.
+  Proof. intros Ex. unfold reg_of. rewrite Ex, ro_slot_r. exact Hn. Qed.
+  Lemma ro_other x : ri_slot x <> r -> RI1 gs w x -> RI1 gs w' x.
   Proof.
-    intros Hx Ne R1. apply RI_setreg_other; auto; [apply I|]. intros rcx _ E. apply Ne.
-    apply (WI_reg_unique w _ _ ri (i_wi _ _ _ _ _ I) E ro_slot_r).
+    intros Ne R1. apply RI_setreg_other; auto. intros E. apply Ne.
+    apply (GI_reg_unique gs w _ _ ri (i_gi _ _ _ _ _ _ I) E ro_slot_r).
   Qed.
   Lemma ro_ri_lt : (ri < length (w_reg w))%nat.
   Proof. apply nth_error_Some. congruence. Qed.
-  Lemma ro_reg_of' x : ri_slot x = r -> reg_of w' x = Some rc'.
-  Proof. intros Ex. unfold reg_of. cbn [w' set_reg w_slots w_reg]. rewrite Ex, ro_slot_r. apply nth_list_set_eq. apply ro_ri_lt. Qed.
-  Lemma ro_sent s0 : sent w' s0 = sent w s0.
+  Lemma ro_reg_of' x : ri_slot x = r -> reg_of gs w' x = Some rc'.
+  Proof. intros Ex. unfold reg_of. cbn [w' set_reg w_reg]. rewrite Ex, ro_slot_r. apply nth_list_set_eq. apply ro_ri_lt. Qed.
+  Lemma ro_sent s0 : sent gs w' s0 = sent gs w s0.
   Proof. reflexivity. Qed.
 
   (* the invariants that do not depend on the members *)
   Lemma ro_common f regs' : regs' = ri_update r f regs -> regwf S rc' ->
-    WI w' /\ Tracked w' regs' /\ NoDup (map ri_slot regs') /\ Forall (fun x => (ri_slot x < length (w_slots w'))%nat) regs'.
+    WI w' /\ GI gs w' /\ Tracked gs regs' /\ NoDup (map ri_slot regs').
   Proof.
-    intros -> Hw. destruct I as [W R T ND Lt M]. split; [apply (P_setreg w ri rc' W Hw)|]. split; [|split].
+    intros -> Hw. destruct I as [W G0 R T ND M]. pose proof (P_setreg w ri rc' W Hw) as F. split; [apply F|]. split; [|split].
+    - destruct G0 as (A & B & C). split; [exact A|]. split; [eapply GI_frame_wf; [apply F|exact B]|].
+      cbn [w' set_reg w_reg]. rewrite list_set_length. exact C.
     - intros s0 ri0 H. destruct (T s0 ri0 H) as (x & Hx & Ex). unfold ri_update.
       exists (if Nat.eqb (ri_slot x) r then mkRI (ri_slot x) (ri_prefix x) (ri_labels x) (f (ri_members x)) else x).
       split; [apply in_map_iff; eauto|]. destruct (Nat.eqb (ri_slot x) r); auto.
     - rewrite ri_update_map. exact ND.
-    - apply Forall_forall. intros y Hy. apply ri_update_in in Hy as (x & Hx & ->). rewrite Forall_forall in Lt. specialize (Lt x Hx).
-      destruct (Nat.eqb (ri_slot x) r); auto.
   Qed.
 
   Lemma INV_register :
     reg_register rc ds c = Ok rc' -> register_compat S rc (cdescS S c) = true ->
     (strict = true -> forall e, nth s sk None = Some e -> mixes r e rk = false) ->
-    INV strict w' (ri_update r (fun m => s :: m) regs) sk (match nth s sk None with Some e => map (add_entry r e) rk | None => rk end).
+    INVg strict gs w' (ri_update r (fun m => s :: m) regs) sk (match nth s sk None with Some e => map (add_entry r e) rk | None => rk end).
   Proof.
-    intros Hreg Hcomp Hmix. destruct ro_coll as (Cl & Ec & Eds & Lc & Ls). pose proof I as [W R T ND Lt M].
+    intros Hreg Hcomp Hmix. destruct ro_coll as (Cl & Ec & Eds & Lc). pose proof I as [W G0 R T ND M].
     rewrite Eds in Hreg. pose proof (reg_register_single _ _ _ _ Hreg) as (_ & Ecs & Ep & El).
     assert (Hw : regwf S rc') by (eapply register_regwf; eauto; apply (regwf_at w ri rc W Hn)).
-    destruct (ro_common (fun m => s :: m) _ eq_refl Hw) as (W' & T' & ND' & Lt').
+    destruct (ro_common (fun m => s :: m) _ eq_refl Hw) as (W' & G' & T' & ND').
     split; auto.
-    - apply Forall_forall. intros y Hy. apply ri_update_in in Hy as (x & Hx & ->). pose proof (RI_in _ _ _ R Hx) as R1.
+    - apply Forall_forall. intros y Hy. apply ri_update_in in Hy as (x & Hx & ->). pose proof (RI_in _ _ _ _ R Hx) as R1.
       destruct (Nat.eqb (ri_slot x) r) eqn:Ex; [|apply Nat.eqb_neq in Ex; apply ro_other; auto].
-      apply Nat.eqb_eq in Ex. destruct R1 as (rc1 & E1 & P1 & L1 & Pm & Fm). rewrite (ro_reg_of x Hx Ex) in E1. inversion E1; subst rc1.
+      apply Nat.eqb_eq in Ex. destruct R1 as (rc1 & E1 & P1 & L1 & Pm & Fm). rewrite (ro_reg_of x Ex) in E1. inversion E1; subst rc1.
       exists rc'. split; [apply ro_reg_of'; auto|]. cbn [ri_prefix ri_labels ri_members]. split; [congruence|]. split; [congruence|]. split.
       + rewrite Ecs, map_app. cbn [map snd]. rewrite Ec. eapply Permutation_trans; [apply Permutation_app_comm|]. cbn. constructor. exact Pm.
       + constructor; auto.
     - intros Es. destruct (M Es) as [Ml Me Mr].
-      set (e0 := (kind_of (ctypeS (sigs_of w) (cofh (slot w s))), d_fq_name (cdescS (sigs_of w) (cofh (slot w s))))).
-      assert (Ee : sent w s = Some e0) by (unfold sent, went; rewrite Cl; reflexivity).
+      set (e0 := (kind_of (ctypeS (sigs_of w) (cofh (gslot gs s))), d_fq_name (cdescS (sigs_of w) (cofh (gslot gs s))))).
+      assert (Ee : sent gs w s = Some e0) by (unfold sent, went; rewrite Cl; reflexivity).
       assert (En : nth s sk None = Some e0) by (rewrite (Me s Cl); exact Ee).
       assert (Hm0 : mixes r e0 rk = false) by (apply Hmix; auto).
       rewrite En. split; auto. apply Forall_forall. intros y Hy. apply ri_update_in in Hy as (x & Hx & ->). rewrite Forall_forall in Mr.
@@ -412,18 +443,18 @@ Section RegOps.
   Lemma INV_unregister :
     reg_unregister rc ds = Ok rc' ->
     (forall x, In x regs -> ri_slot x = r -> In s (ri_members x)) ->
-    INV strict w' (ri_update r (remove_nat s) regs) sk (match nth s sk None with Some e => map (del_entry r e) rk | None => rk end).
+    INVg strict gs w' (ri_update r (remove_nat s) regs) sk (match nth s sk None with Some e => map (del_entry r e) rk | None => rk end).
   Proof.
-    intros Hreg Hmem. destruct ro_coll as (Cl & Ec & Eds & Lc & Ls). pose proof I as [W R T ND Lt M].
+    intros Hreg Hmem. destruct ro_coll as (Cl & Ec & Eds & Lc). pose proof I as [W G0 R T ND M].
     pose proof (reg_unregister_spec _ _ _ Hreg) as (Ecs & Ep & El).
     pose proof (regwf_at w ri rc W Hn) as Hw0.
     assert (Hw : regwf S rc') by (eapply unregister_regwf; eauto).
-    destruct (ro_common (remove_nat s) _ eq_refl Hw) as (W' & T' & ND' & Lt').
+    destruct (ro_common (remove_nat s) _ eq_refl Hw) as (W' & G' & T' & ND').
     split; auto.
-    - apply Forall_forall. intros y Hy. apply ri_update_in in Hy as (x & Hx & ->). pose proof (RI_in _ _ _ R Hx) as R1.
+    - apply Forall_forall. intros y Hy. apply ri_update_in in Hy as (x & Hx & ->). pose proof (RI_in _ _ _ _ R Hx) as R1.
       destruct (Nat.eqb (ri_slot x) r) eqn:Ex; [|apply Nat.eqb_neq in Ex; apply ro_other; auto].
       apply Nat.eqb_eq in Ex. pose proof (Hmem x Hx Ex) as Hs. destruct R1 as (rc1 & E1 & P1 & L1 & Pm & Fm).
-      rewrite (ro_reg_of x Hx Ex) in E1. inversion E1; subst rc1.
+      rewrite (ro_reg_of x Ex) in E1. inversion E1; subst rc1.
       exists rc'. split; [apply ro_reg_of'; auto|]. cbn [ri_prefix ri_labels ri_members]. split; [congruence|]. split; [congruence|]. split.
       + assert (Hin : In c (map snd (r_collectors rc))).
         { eapply Permutation_in; [apply Permutation_sym; exact Pm|]. rewrite Ec. apply in_map. exact Hs. }
@@ -437,8 +468,8 @@ Section RegOps.
         rewrite Ec. eapply Permutation_trans; [apply Permutation_map; apply remove_nat_perm; exact Hs|]. cbn [map]. apply Permutation_refl.
       + eapply Forall_sub; [|exact Fm]. intros z. apply remove_nat_sub.
     - intros Es. destruct (M Es) as [Ml Me Mr].
-      set (e0 := (kind_of (ctypeS (sigs_of w) (cofh (slot w s))), d_fq_name (cdescS (sigs_of w) (cofh (slot w s))))).
-      assert (Ee : sent w s = Some e0) by (unfold sent, went; rewrite Cl; reflexivity).
+      set (e0 := (kind_of (ctypeS (sigs_of w) (cofh (gslot gs s))), d_fq_name (cdescS (sigs_of w) (cofh (gslot gs s))))).
+      assert (Ee : sent gs w s = Some e0) by (unfold sent, went; rewrite Cl; reflexivity).
       assert (En : nth s sk None = Some e0) by (rewrite (Me s Cl); exact Ee).
       rewrite En. split; auto. apply Forall_forall. intros y Hy. apply ri_update_in in Hy as (x & Hx & ->). rewrite Forall_forall in Mr.
       destruct (Mr x Hx) as (es & A & B & C). destruct (Nat.eqb (ri_slot x) r) eqn:Ex.
@@ -460,7 +491,7 @@ End RegOps.
 
 (* ---------- every operation but gather ---------- *)
 Lemma INV_same strict w regs sk rk o ob : INV strict w regs sk rk -> pushes o = false -> INV strict w regs (sk_next sk o ob) rk.
-Proof. intros I P. apply (INV_of_res strict w regs sk rk o w ob I). apply res_same; auto. apply I. Qed.
+Proof. intros I P. apply (INV_of_res strict w regs sk rk o w ob I). apply res_same; auto. destruct I as [gs I]. apply I. Qed.
 Lemma existsb_nat_in s l : existsb (Nat.eqb s) l = true -> In s l.
 Proof. intros H. apply existsb_exists in H as (x & Hx & E). apply Nat.eqb_eq in E. subst. exact Hx. Qed.
 
@@ -470,25 +501,26 @@ Lemma INV_step strict w regs sk rk o : INV strict w regs sk rk ->
   INV strict (fst (step w o)) (track w regs o (snd (step w o))) (sk_next sk o (snd (step w o))) (rk_next sk rk o (snd (step w o))).
 Proof.
   intros I Hl Hc Hd Hm. destruct (is_regop o) eqn:Hr; [|apply INV_other; auto].
+  assert (W : WI w) by (destruct I as [gs I]; apply I).
   destruct o; try discriminate Hr; clear Hr Hl Hc; revert Hd Hm; cbn [step].
   - (* OpRegistry *) rewrite opt_amap. destruct (reg_new_custom prefix (option_map (@amap_of str) labels)) as [r|e] eqn:E; cbn [fst snd]; intros _ _.
     + apply INV_registry; auto.
-    + apply (INV_of_res strict w regs sk rk (OpRegistry prefix labels) _ (ORes (Err e)) I). apply res_dead; auto. apply I.
+    + apply (INV_of_res strict w regs sk rk (OpRegistry prefix labels) _ (ORes (Err e)) I). apply res_dead; auto.
   - (* OpRegister *)
     destruct (slot w r) eqn:Er; try (cbn [fst snd]; intros _ _; apply (INV_same strict w regs sk rk (OpRegister r s) OBad I eq_refl)).
     destruct (collector_of w (slot w s)) as [[c ds]|] eqn:Ec; [|cbn [fst snd]; intros _ _; apply (INV_same strict w regs sk rk (OpRegister r s) OBad I eq_refl)].
     destruct (nth_error (w_reg w) r0) as [rc|] eqn:En; [|cbn [fst snd]; intros _ _; apply (INV_same strict w regs sk rk (OpRegister r s) OBad I eq_refl)].
     destruct (reg_register rc ds c) as [rc'|e] eqn:Eg; cbn [fst snd].
-    + cbn [op_dyn track rk_next]. rewrite Er, Ec, En. intros Hd Hm.
-      apply (INV_register strict w regs sk rk r s r0 c ds rc rc' I Er Ec En Eg Hd). intros Es e He. eapply Hm; eauto.
+    + cbn [op_dyn track rk_next]. rewrite Er, Ec, En. intros Hd Hm. destruct I as [gs I]. exists gs.
+      apply (INV_register strict gs w regs sk rk r s r0 c ds rc rc' I Er Ec En Eg Hd). intros Es e He. eapply Hm; eauto.
     + intros _ _. apply (INV_same strict w regs sk rk (OpRegister r s) (ORes (Err e)) I eq_refl).
   - (* OpUnregister *)
     destruct (slot w r) eqn:Er; try (cbn [fst snd]; intros _ _; apply (INV_same strict w regs sk rk (OpUnregister r s) OBad I eq_refl)).
     destruct (collector_of w (slot w s)) as [[c ds]|] eqn:Ec; [|cbn [fst snd]; intros _ _; apply (INV_same strict w regs sk rk (OpUnregister r s) OBad I eq_refl)].
     destruct (nth_error (w_reg w) r0) as [rc|] eqn:En; [|cbn [fst snd]; intros _ _; apply (INV_same strict w regs sk rk (OpUnregister r s) OBad I eq_refl)].
     destruct (reg_unregister rc ds) as [rc'|e] eqn:Eg; cbn [fst snd].
-    + cbn [op_dyn track rk_next]. intros Hd _.
-      apply (INV_unregister strict w regs sk rk r s r0 c ds rc rc' I Er Ec En Eg). intros x Hx Ex.
+    + cbn [op_dyn track rk_next]. intros Hd _. destruct I as [gs I]. exists gs.
+      apply (INV_unregister strict gs w regs sk rk r s r0 c ds rc rc' I Er Ec En Eg). intros x Hx Ex.
       destruct (ri_find r regs) as [x0|] eqn:Ef.
       * apply ri_find_some in Ef as [Hx0 Ex0]. assert (x = x0) by (apply (NoDup_map_inj_on ri_slot regs); auto; [apply I|congruence]).
         subst x0. apply existsb_nat_in. exact Hd.
@@ -524,13 +556,32 @@ Lemma walk_gather_nofams chk same w regs rn r ob ops obs : is_fams ob = false ->
   walk chk same w regs rn (OpGather r :: ops) (ob :: obs) = walk chk same (fst (step w (OpGather r))) regs [] ops obs.
 Proof. intros H. cbn [walk]. destruct ob; try reflexivity. discriminate. Qed.
 
+(* a gather keeps the invariant with the same ghost table *)
+Lemma INVg_weq strict gs w w' regs sk rk : INVg strict gs w regs sk rk -> weq w w' -> INVg strict gs w' regs sk rk.
+Proof.
+  intros [W G0 R T ND M] E. pose proof (weq_frame _ _ E) as F. pose proof E as (_ & _ & Er & Es & _).
+  assert (Hregs : forall ri rc, nth_error (w_reg w) ri = Some rc -> nth_error (w_reg w') ri = Some rc) by (rewrite Er; auto).
+  split; auto.
+  - eapply WI_weq; eauto.
+  - eapply ghost_same; eauto.
+  - apply Forall_forall. intros x Hx. eapply RI1_frame; [apply sagree_refl|exact Hregs|apply (RI_in _ _ _ _ R Hx)].
+  - intros Es'. destruct (M Es') as [Ml Me Mr]. split; auto.
+    + intros s Hc. rewrite (Me s Hc). symmetry. apply (sent_frame gs gs w w' s G0 F (sagree_refl gs) Hc).
+    + apply (MI_regs_frame gs gs w w' rk regs G0 F (sagree_refl gs) R Mr).
+Qed.
+
+Definition INVr strict w regs sk rk rn : Prop := exists gs, INVg strict gs w regs sk rk /\ RunInv strict gs w regs rn.
+Lemma INVr_nil strict w regs sk rk : INV strict w regs sk rk -> INVr strict w regs sk rk [].
+Proof. intros [gs I]. exists gs. split; auto. intros e x []. Qed.
+
 Theorem walk_model strict : forall ops w regs rn sk rk,
-  INV strict w regs sk rk -> RunInv strict w regs rn -> dom_walk w regs ops = true ->
+  INVr strict w regs sk rk rn -> dom_walk w regs ops = true ->
   (strict = true -> mixed_walk sk rk ops (World.run w ops) = false) ->
   walk (chk_c07 strict) (samef strict) w regs rn ops (World.run w ops) = true
   /\ (strict = true -> forallb hom_ob (World.run w ops) = true).
 Proof.
-  induction ops as [|o ops IH]; intros w regs rn sk rk I Ru Hd Hmx; [split; reflexivity|].
+  induction ops as [|o ops IH]; intros w regs rn sk rk Ir Hd Hmx; [split; reflexivity|].
+  assert (I : INV strict w regs sk rk) by (destruct Ir as [gs [I _]]; exists gs; exact I).
   cbn [dom_walk] in Hd. apply andb_true_iff in Hd as [Hd Hd4]. apply andb_true_iff in Hd as [Hd Hd3]. apply andb_true_iff in Hd as [Hd1 Hd2].
   cbn [World.run] in *. destruct (step w o) as [w' ob] eqn:Est. cbn [fst snd] in *.
   assert (E1 : fst (step w o) = w') by (rewrite Est; reflexivity). assert (E2 : snd (step w o) = ob) by (rewrite Est; reflexivity).
@@ -549,21 +600,23 @@ Proof.
     { destruct (classic_gather o) as [[r ->]|Hn].
       - rewrite walk_gather_nofams by auto. rewrite E1. reflexivity.
       - rewrite walk_nongather by auto. rewrite E1. reflexivity. }
-    destruct (IH w' (track w regs o ob) [] _ _ I' (fun e x H => match H with end) Hd4 Hmx') as [A B].
+    destruct (IH w' (track w regs o ob) [] _ _ (INVr_nil _ _ _ _ _ I') Hd4 Hmx') as [A B].
     split; [rewrite Ew; exact A|]. intros Es. cbn [forallb]. rewrite (B Es), andb_true_r. destruct ob; try reflexivity. discriminate. }
   destruct (classic_gather o) as [[r ->]|Hn].
   - destruct (gather_obs w r) as [(ri & rc & fs & w1 & Hs & Hr & Hc & Estep)|Hnf].
     2:{ rewrite E2 in Hnf. apply Nongather; auto. }
     rewrite Est in Estep. inversion Estep; subst w1 ob. clear Estep.
-    pose proof I as [W R T ND Lt M].
-    destruct (T r ri (slot_nth_error _ _ _ Hs ltac:(discriminate))) as (x0 & Hx0 & Ex0).
+    destruct Ir as [gs [Ig Ru]]. pose proof Ig as [W G0 R T ND M].
+    destruct (T r ri (GI_reg _ _ _ _ G0 Hs)) as (x0 & Hx0 & Ex0).
     destruct (ri_find r regs) as [x|] eqn:Ef; [|exfalso; eapply ri_find_none; eauto].
     assert (Ty : strict = true -> types_agree (sigs_of w) (r_collectors rc)).
     { intros Es. destruct (M Es) as [_ _ Mr]. rewrite Forall_forall in Mr. pose proof Ef as Ef'. apply ri_find_some in Ef' as [Hx Ex].
-      apply (MI_types w rk x rc (RI_in _ _ _ R Hx) (Mr x Hx)). pose proof (RI_in _ _ _ R Hx) as (rc1 & Er1 & _).
-      rewrite <- Ex in Hs. rewrite Er1. f_equal. pose proof (reg_of_slot _ _ _ _ Er1 Hs) as X. congruence. }
-    destruct (gather_case strict w regs rn r x ri rc fs w' W R Ru Ef Hs Hr Hc Ty) as (A & B & C & D).
-    cbn [track] in I'. destruct (IH w' regs _ _ _ I' C Hd4 Hmx') as [A' B'].
+      apply (MI_types gs w rk x rc (RI_in _ _ _ _ R Hx) (Mr x Hx)). pose proof (RI_in _ _ _ _ R Hx) as (rc1 & Er1 & _).
+      rewrite <- Ex in Hs. rewrite Er1. f_equal. pose proof (reg_of_slot _ _ _ _ _ Er1 (GI_reg _ _ _ _ G0 Hs)) as X. congruence. }
+    destruct (gather_case strict gs w regs rn r x ri rc fs w' W G0 R Ru Ef Hs Hr Hc Ty) as (A & B & C & D & Hw).
+    assert (Ir' : INVr strict w' regs sk rk ((key_of x, gather_families (r_prefix rc) (r_labels rc) fs) :: rn)).
+    { exists gs. split; auto. eapply INVg_weq; eauto. }
+    destruct (IH w' regs _ _ _ Ir' Hd4 Hmx') as [A' B'].
     split.
     + cbn [walk]. rewrite Ef, A, B. cbn [andb]. rewrite E1. exact A'.
     + intros Es. cbn [forallb hom_ob]. rewrite (D Es), (B' Es). reflexivity.
@@ -575,23 +628,25 @@ Qed.
 (* ====================================================================================== *)
 Lemma INV0 strict : INV strict world0 [] [] [].
 Proof.
-  split; try constructor; try apply WI0; cbn; auto.
+  exists []. split.
+  - apply WI0.
+  - split; [constructor|]. split; [constructor|reflexivity].
+  - constructor.
   - intros s ri H. destruct s; discriminate.
-  - intros s Hs. unfold slot in Hs. cbn in Hs. destruct s; discriminate.
+  - constructor.
+  - intros _. split; [reflexivity| |constructor]. intros s Hs. destruct s; discriminate.
 Qed.
-Lemma RunInv_nil strict w regs : RunInv strict w regs [].
-Proof. intros e x []. Qed.
 
 Theorem c07_spec_strict ops : dom07 ops = true -> mixed_kinds_registered ops (World.run world0 ops) = false ->
   spec_c07 ops (World.run world0 ops) = true.
 Proof.
-  intros Hd Hm. unfold spec_c07. apply (walk_model true ops world0 [] [] [] [] (INV0 true) (RunInv_nil _ _ _) Hd). intros _. exact Hm.
+  intros Hd Hm. unfold spec_c07. apply (walk_model true ops world0 [] [] [] [] (INVr_nil _ _ _ _ _ (INV0 true)) Hd). intros _. exact Hm.
 Qed.
 Theorem c07_known_delimited ops : dom07 ops = true -> mixed_kinds_registered ops (World.run world0 ops) = true ->
   known_mixed_kinds ops (World.run world0 ops) = true.
 Proof.
   intros Hd Hm. unfold known_mixed_kinds. rewrite Hm.
-  apply (walk_model false ops world0 [] [] [] [] (INV0 false) (RunInv_nil _ _ _) Hd). intros H. discriminate.
+  apply (walk_model false ops world0 [] [] [] [] (INVr_nil _ _ _ _ _ (INV0 false)) Hd). intros H. discriminate.
 Qed.
 Theorem c07_spec_model ops : dom07 ops = true ->
   spec_c07 ops (World.run world0 ops) = true \/ known_mixed_kinds ops (World.run world0 ops) = true.
@@ -683,6 +738,29 @@ Example ex_c14_witness_in_domain :
   /\ spec_c14 ex_c14_witness (World.run world0 ex_c14_witness) = false
   /\ known_mixed_kinds ex_c14_witness (World.run world0 ex_c14_witness) = true.
 Proof. repeat split; vm_compute; reflexivity. Qed.
+
+(* local metrics, timers and OpDrop - of a local histogram, of the handle of a REGISTERED counter and of
+   a registry handle - between back-to-back gathers of two registries *)
+Definition ex_locals_drop : list op :=
+  [OpCounter NF (mkOpts [] [] [120] [104] (amap_of [([107],[49])]) []);
+   OpHistogram (mkHOpts (mkOpts [] [] [104] [104] [] []) []);
+   OpCounterVec NU (mkOpts [] [] [118] [104] [] []) [[108]];
+   OpRegistry None None; OpRegistry None None;
+   OpRegister 3%nat 0%nat; OpRegister 3%nat 1%nat; OpRegister 3%nat 2%nat;
+   OpRegister 4%nat 2%nat; OpRegister 4%nat 1%nat; OpRegister 4%nat 0%nat;
+   OpLocal 0%nat; OpInc 5%nat; OpFlush 5%nat;
+   OpLocal 1%nat; OpObserve 6%nat (bits2f 0x3ff0000000000000);
+   OpTimer 1%nat; OpTimerStop 7%nat TObserve 1 5;
+   OpLocal 2%nat; OpLvInc 8%nat [[97]] (VU 2); OpFlush 8%nat;
+   OpGather 3%nat; OpGather 4%nat;
+   OpDrop 6%nat; OpDrop 0%nat; OpLvRemove 8%nat [[97]];
+   OpGather 4%nat; OpGather 3%nat;
+   OpDrop 3%nat; OpGather 3%nat; OpGather 4%nat].
+Example ex_locals_drop_in_domain :
+  dom07 ex_locals_drop = true /\ mixed_kinds_registered ex_locals_drop (World.run world0 ex_locals_drop) = false
+  /\ length (filter is_fams (World.run world0 ex_locals_drop)) = 5%nat
+  /\ spec_c07 ex_locals_drop (World.run world0 ex_locals_drop) = true.
+Proof. split; [vm_compute; reflexivity|]. split; [vm_compute; reflexivity|]. split; [vm_compute; reflexivity|]. apply c07_spec_strict; vm_compute; reflexivity. Qed.
 
 (* ====================================================================================== *)
 (* 7. What the domain's compatibility condition means.                                     *)
